@@ -81,6 +81,8 @@ def alphabet(ct, ut):
         "close-out-early": {"conn": ["ok", 0], "out": [[0, "EOF"]], "err": [[0, 5], [2, 5], [2, "EOF"]]},
         "close-err-early": {"conn": ["ok", 0], "out": [[0, 5], [2, 5], [2, "EOF"]], "err": [[0, "EOF"]]},
         "read-error": {"conn": ["ok", 0], "out": [[0, 5], [1, "ERR"]], "err": [[1, "EOF"]]},
+        # closes stderr at once, then hangs on stdout: with -s its stderr descriptor is gone long before the signal
+        "close-err-hang": {"conn": ["ok", 0], "out": [[0, 5], [-1, "EOF"]], "err": [[0, "EOF"]]},
         # keeps talking, every second, for ever (the command ends only when it is told to): past a command timeout
         # the worker is mostly NOT in xpoll when the deadline passes
         "chatty": {"conn": ["ok", 0], "out": [[k, 3] for k in range(0, 9)] + [[-1, "EOF"]], "err": [[-1, "EOF"]], "life": -1},
@@ -282,6 +284,12 @@ def offenders(res):
     else:
         out.append(("harness-bug", "status " + status))
     H = observe(res)
+    for _, now, th, ev in events(res):
+        if ev[0] == "fwd" and "stale-efd" in ev:
+            out.append(("signal-on-stale-descriptor", "at %d the signal for %s was sent over a descriptor number that is "
+                        "not (any more) its open stderr connection: it reaches whoever owns that number now" %
+                        (now, case["hosts"][int(ev[1])]["name"])))
+            break
     total_bound = slip = 0
     for i, (host, beh, h) in enumerate(zip(case["hosts"], case["behaviours"], H)):
         name = host["name"]
